@@ -5,6 +5,8 @@ locals bound to such expressions).  Nothing of the library is executed; an expre
 boolean combination of atoms makes the evaluation give up (Unknown).
 """
 import ast
+
+from .flatten import _clone
 import copy
 import itertools
 
@@ -27,7 +29,7 @@ class _Subst(ast.NodeTransformer):
     def visit_Name(self, node):
         v = self.env.get(node.id)
         if isinstance(v, AstVal):
-            return copy.deepcopy(v.expr)
+            return _clone(v.expr)
         return node
 
 
@@ -36,13 +38,13 @@ def _value(e, env, atom_of, asg):
     try:
         return _eval(e, env, atom_of, asg)
     except Unknown:
-        return AstVal(_Subst(env).visit(copy.deepcopy(e)))
+        return AstVal(_Subst(env).visit(_clone(e)))
 
 
 def _eval(e, env, atom_of, asg):
     k = atom_of(e)
     if k is None and any(isinstance(v, AstVal) for v in env.values()):
-        k = atom_of(_Subst(env).visit(copy.deepcopy(e)))
+        k = atom_of(_Subst(env).visit(_clone(e)))
     if k is not None:
         return asg[k]
     if isinstance(e, ast.Constant) and isinstance(e.value, (bool, int)):
